@@ -47,11 +47,21 @@ def effective(program, base, override=None, instance=None, keys=()):
   path = os.path.join(root, 'daemonconf-%s.json' % k)
   if not os.path.exists(path):
     e = dict(os.environ, PYTHONDONTWRITEBYTECODE='1', PYTHONHASHSEED='0')
-    r = subprocess.run([sys.executable, '-B', '-m', 'mc.daemonconf'], input=blob, capture_output=True, text=True,
-                       env=e, timeout=120, cwd=os.path.dirname(os.path.dirname(os.path.abspath(__file__))))
-    lines = [l for l in r.stdout.splitlines() if l.startswith('RESULT ')]
-    if r.returncode != 0 or not lines:
-      raise RuntimeError('daemonconf subprocess failed (rc=%s): %s' % (r.returncode, (r.stdout + r.stderr)[-800:]))
+    lines, last = [], ''
+    for attempt in range(2):      # one retry: the child only reads files and prints one line
+      try:
+        r = subprocess.run([sys.executable, '-B', '-m', 'mc.daemonconf'], input=blob, capture_output=True, text=True,
+                           env=e, timeout=300, cwd=os.path.dirname(os.path.dirname(os.path.abspath(__file__))))
+      except subprocess.TimeoutExpired as ex:
+        last = 'timeout: %r' % (ex,)
+        continue
+      lines = [l for l in r.stdout.splitlines() if l.startswith('RESULT ')]
+      if r.returncode == 0 and lines:
+        break
+      last = 'rc=%s: %s' % (r.returncode, (r.stdout + r.stderr)[-800:])
+      lines = []
+    if not lines:
+      raise RuntimeError('daemonconf subprocess failed (%s)' % last)
     tmp = '%s.%d' % (path, os.getpid())
     with open(tmp, 'w') as f:
       f.write(lines[-1][7:])
